@@ -27,7 +27,8 @@ META = {
         " Round 8: a default direction is lower-cased before it is appended; str() is not applied before the '' / None test."
         " Round 9: no comparison across components (`group('rge') == _UNDEF_TWP`); validation is not an elif of the building branch; public functions never return the cached dict."
         ' Round 11: derived placeholders are rebuilt from parts of their own kind (shared with C15); witnesses are lower-cased as trs_to_dict does.'
-        " Round 12: the function that applies the unpacker is found by what it does; length pre-tests are compared with the shortest member of the pattern's language; the cache-purity rule of C15 is armed here too."),
+        " Round 12: the function that applies the unpacker is found by what it does; length pre-tests are compared with the shortest member of the pattern's language; the cache-purity rule of C15 is armed here too."
+        ' Also: a number refined from the raw component (direction letter split off) is not re-derived from the raw component afterwards.'),
     'families': ['RX-ANCHOR', 'RX-LANG', 'RX-DEADALT', 'DEFUSE', 'SIB', 'FORWARD', 'DEADPARAM', 'SIB-DEFAULTS'],
 }
 
@@ -162,6 +163,7 @@ def check(ctx):
     ctx.attempt(common.cross_component_compare, [f for f in ctx.repo.funcs.values() if f.module.name.endswith(('trs.trs', 'tract.tract'))])
     ctx.attempt(validation_on_every_path)
     ctx.attempt(length_pretests)
+    ctx.attempt(common.refinement_discarded, [f for f in ctx.repo.funcs.values() if f.module.name.endswith(('trs.trs', 'unpack.unpackers'))])
     from .c15 import _cache_purity        # strictness: a near-miss string must not be served a cached valid break-down
     ctx.attempt(_cache_purity)
     ctx.attempt(common.test_then_shrink, [f for f in ctx.repo.funcs.values() if f.module.name.endswith(('trs.trs', 'unpack.unpackers', 'config.config'))])
